@@ -152,10 +152,13 @@ def build(spec):
 
 def as_container(tab, container):
     """dict of arrays (default) or pandas DataFrame."""
-    if container == "dataframe":
+    if container in ("dataframe", "dataframe-offset-index"):
         import pandas as pd
 
-        return pd.DataFrame({c: tab[c] for c in tab})
+        df = pd.DataFrame({c: tab[c] for c in tab})
+        if container == "dataframe-offset-index":  # row labels that are not 0..n-1 (a table filtered or sliced earlier)
+            df.index = np.arange(len(df)) * 3 + 100
+        return df
     return {c: np.array(v, copy=True) for c, v in tab.items()}
 
 
